@@ -84,7 +84,9 @@ def _get_shortest_public_reexport(
 
     shortest_id = None
     alias = None
-    for module_id_tuple in module_ids:
+    # Sorted, so that a tie between re-exports of the same depth is settled the same way in every run (set order
+    # depends on the hash seed) and in favour of the module that _has_node_shorter_reexport picks as well
+    for module_id_tuple in sorted(module_ids, key=lambda id_and_alias: (id_and_alias[0], id_and_alias[1] or "")):
         module_id_parts = module_id_tuple[0].split("/")
         if shortest_id is None or len(module_id_parts) < len(shortest_id):
             shortest_id = module_id_parts
